@@ -174,6 +174,15 @@ def mk_tm(p, via="tm"):
         except Exception:  # noqa
             pass
         return tm
+    if (p["apid"] + p["seq"] + len(p["data"])) % 3 == 2 and p["ver"] == 0:
+        # the convenience constructor from ready-made headers (space packet header with the right data length, secondary
+        # header with whatever time stamp length)
+        from spacepackets.ecss.tm import PusTmSecondaryHeader
+        from spacepackets.ccsds.spacepacket import SpacePacketHeader, PacketType
+        n = 7 + len(p["stamp"]) + len(p["data"]) + 2
+        sph = SpacePacketHeader(packet_type=PacketType.TM, apid=p["apid"], seq_count=p["seq"], data_len=n - 1, sec_header_flag=True)
+        sec = PusTmSecondaryHeader(p["service"], p["subservice"], bytes(p["stamp"]), p["msgcnt"], p["dest"], p["timeref"])
+        return PusTm.from_composite_fields(sph, sec, bytes(p["data"]))
     cls = PusTm
     if (p["apid"] + p["seq"] + len(p["data"])) % 3 == 1:
         from spacepackets.ecss import PusTelemetry              # the constructor under its other public name
